@@ -232,18 +232,55 @@ theorem StepOK.setInode (r : Path) (w : World) (h : Inv r w) (q : Path) (i : Ino
   StepOK.mk r w _ h (setInode_confined r w.fs i n q hq (under_trans h.root_under hu))
     (h.next_fresh.setInode i n) (fun hh => hh)
 
+theorem StepOK.trans {r : Path} {w w1 w2 : World} (h1 : StepOK r w w1) (h2 : StepOK r w1 w2) : StepOK r w w2 :=
+  ⟨Confined.trans h1.1 h2.1, h2.2⟩
+
+theorem mkdirOne_ok (r : Path) (w : World) (p : Str) (perm : Nat) (h : Inv r w) : StepOK r w (mkdirOne w p perm).2 := by
+  unfold mkdirOne
+  split
+  · exact StepOK.same r w h
+  · rename_i q hq
+    split
+    · exact StepOK.same r w h
+    · rename_i hex
+      split
+      · exact StepOK.same r w h
+      · exact StepOK.create r w h q _ (resolveC_under w p q hq) (isSome_false_none hex)
+
+theorem mkdirAllK_ok (r : Path) : ∀ (fuel : Nat) (w : World) (p : Str) (perm : Nat), Inv r w →
+    StepOK r w (mkdirAllK fuel w p perm).2 := by
+  intro fuel
+  induction fuel with
+  | zero => intro w p perm h; exact StepOK.same r w h
+  | succ n ih =>
+    intro w p perm h
+    simp only [mkdirAllK]
+    split
+    · split <;> exact StepOK.same r w h
+    · -- parent first
+      have hpar : StepOK r w (if (splitLast (stripTrailingSlashes p)).1.length > 0 ∧ (splitLast (stripTrailingSlashes p)).1 ≠ p
+          then mkdirAllK n w (splitLast (stripTrailingSlashes p)).1 perm else (Res.ok, w)).2 := by
+        split
+        · exact ih w _ perm h
+        · exact StepOK.same r w h
+      generalize (if (splitLast (stripTrailingSlashes p)).1.length > 0 ∧ (splitLast (stripTrailingSlashes p)).1 ≠ p
+          then mkdirAllK n w (splitLast (stripTrailingSlashes p)).1 perm else (Res.ok, w)) = pr at hpar ⊢
+      split
+      · exact hpar
+      · have hm := mkdirOne_ok r pr.2 p perm hpar.2
+        have := StepOK.trans hpar hm
+        split
+        · split
+          · split <;> exact this
+          · exact this
+        · exact this
+
 set_option maxHeartbeats 1000000 in
 /-- **every system call is confined to the thread's root** -/
 theorem step_confined (r : Path) (w : World) (s : Sys) (h : Inv r w) : StepOK r w (step w s).2 := by
   cases s with
-  | lstat p =>
-    simp only [step]
-    repeat' split
-    all_goals exact StepOK.same r w h
-  | stat p =>
-    simp only [step]
-    repeat' split
-    all_goals exact StepOK.same r w h
+  | lstat p => simp only [step]; exact StepOK.same r w h
+  | stat p => simp only [step]; exact StepOK.same r w h
   | readFile p =>
     simp only [step]
     repeat' split
@@ -265,15 +302,10 @@ theorem step_confined (r : Path) (w : World) (s : Sys) (h : Inv r w) : StepOK r 
     exact ⟨Confined.refl _ _, ⟨h.root_under, h.root_exists, h.next_fresh⟩⟩
   | mkdir p perm =>
     simp only [step]
-    split
-    · exact StepOK.same r w h
-    · rename_i q hq
-      split
-      · exact StepOK.same r w h
-      · rename_i hex
-        split
-        · exact StepOK.same r w h
-        · exact StepOK.create r w h q _ (resolveC_under w p q hq) (isSome_false_none hex)
+    exact mkdirOne_ok r w p perm h
+  | mkdirAll p perm =>
+    simp only [step]
+    exact mkdirAllK_ok r _ w p perm h
   | symlink target p =>
     simp only [step]
     split
